@@ -221,7 +221,13 @@ func trAbstract(cli client.Client) trNet {
 }
 
 func trRun(in trIn) interface{} {
+	out, _ := trRunF(in, 0)
+	return out
+}
+
+func trRunF(in trIn, failN int) (interface{}, faultRun) {
 	cli := trBuild(in.Net)
+	cli.Log = nil
 	canaryKey := trNS + "/" + trSvc + "-canary"
 	trSetMem(in.Mem, canaryKey)
 	m := trafficrouting.NewTrafficRoutingManager(cli)
@@ -229,6 +235,7 @@ func trRun(in trIn) interface{} {
 	before := tc.LastUpdateTime
 	var b bool
 	var err error
+	cli.Calls, cli.FailCallN, cli.FaultHit = 0, failN, ""
 	switch in.Call {
 	case "patchStableService":
 		b, err = m.PatchStableService(tc)
@@ -247,6 +254,9 @@ func trRun(in trIn) interface{} {
 	default:
 		panic("bad call " + in.Call)
 	}
+	cli.FailCallN = 0
+	// for the calls with "done" semantics a false result asks for another round just like an error does
+	fr := faultRun{Err: err != nil, Requeue: b, Calls: cli.Calls, Hit: cli.FaultHit, Writes: writesOf(cli)}
 	touched := tc.LastUpdateTime != before && (before == nil || !tc.LastUpdateTime.Equal(before))
 	writes := []string{}
 	for _, r := range cli.Log {
@@ -283,9 +293,12 @@ func trRun(in trIn) interface{} {
 			}
 		}
 	}
-	out := J{"done": b, "err": err != nil, "net": trAbstract(cli), "mem": trGetMem(canaryKey), "touched": touched, "writes": writes}
+	// "recheck": the call asked the reconciler to come back after a POSITIVE duration (c.RecheckDuration); a retry
+	// without it is a wake-up that never comes (controller-runtime drops a RequeueAfter that is not positive)
+	out := J{"done": b, "err": err != nil, "net": trAbstract(cli), "mem": trGetMem(canaryKey), "touched": touched, "writes": writes,
+		"recheck": tc.RecheckDuration > 0}
 	grace.ResetExpectations()
-	return out
+	return out, fr
 }
 
 func trCase(c *Ctx, in trIn) {
@@ -341,11 +354,26 @@ func genTraffic(c *Ctx) trIn {
 
 func runTraffic(c *Ctx) {
 	for i := 0; i < c.N; i++ {
-		trCase(c, genTraffic(c))
+		in := genTraffic(c)
+		trCase(c, in)
+		if i%6 == 0 {
+			faultSweep(c, in, c.Thorough() && i%30 == 0, func(n int) faultRun { _, r := trRunF(in, n); return r })
+		}
 	}
 }
 
 func replayTraffic(c *Ctx, op string, raw json.RawMessage) {
+	if op == "fault" {
+		var f struct {
+			In trIn `json:"in"`
+			K  int  `json:"k"`
+		}
+		if err := json.Unmarshal(raw, &f); err != nil {
+			panic(err)
+		}
+		faultReplay(c, f.In, f.K, func(n int) faultRun { _, r := trRunF(f.In, n); return r })
+		return
+	}
 	var in trIn
 	if err := json.Unmarshal(raw, &in); err != nil {
 		panic(err)
